@@ -7,14 +7,25 @@ import (
 	"encoding/json"
 	"fmt"
 	"os"
+	"reflect"
 	"sort"
 	"strings"
 	"testing"
+	"time"
 
 	corev1 "k8s.io/api/core/v1"
+	apiequality "k8s.io/apimachinery/pkg/api/equality"
 	"k8s.io/apimachinery/pkg/api/resource"
 	metav1 "k8s.io/apimachinery/pkg/apis/meta/v1"
+	"k8s.io/apimachinery/pkg/apis/meta/v1/unstructured"
+	"k8s.io/apimachinery/pkg/runtime"
+	"k8s.io/apimachinery/pkg/runtime/schema"
+	"k8s.io/apimachinery/pkg/types"
+	clientgoscheme "k8s.io/client-go/kubernetes/scheme"
+	toolscache "k8s.io/client-go/tools/cache"
+	"sigs.k8s.io/controller-runtime/pkg/cache/informertest"
 	"sigs.k8s.io/controller-runtime/pkg/client"
+	"sigs.k8s.io/controller-runtime/pkg/controller/controllertest"
 
 	"github.com/koordinator-sh/koordinator/apis/extension"
 	"github.com/koordinator-sh/koordinator/apis/thirdparty/scheduler-plugins/pkg/apis/scheduling/v1alpha1"
@@ -465,6 +476,13 @@ func c15Val(x int64) int64 {
 // store = the accepted API objects (for the namespace clause); checkMinSum=false once a request
 // carrying allow-force-update / is-root (which by design bypass the min-sum check) was accepted.
 func c15WF(d *c15Dump, store map[int]*c15Spec, checkMinSum bool) (string, string) {
+	return c15WFx(d, store, checkMinSum, nil)
+}
+
+// c15WFx: exempt != nil replaces the RECORDED bypass flags of the state-based min-sum clause by the oracle's own
+// bookkeeping (c15Taint): with informer events delivered, a label-only update re-records the flags although the
+// request was accepted by the unchanged-fields shortcut, i.e. without any check.
+func c15WFx(d *c15Dump, store map[int]*c15Spec, checkMinSum bool, exempt map[int]bool) (string, string) {
 	if d.bad != "" {
 		return "C15:undumpable", d.bad
 	}
@@ -535,14 +553,20 @@ func c15WF(d *c15Dump, store map[int]*c15Spec, checkMinSum bool) (string, string
 	}
 	// the same clause with the two bypasses as explicit parts (Lean: MinSum), demanded in EVERY history: a recorded
 	// quota that does not carry allow-force-update / is-root covers the mins of its children that do not carry them
+	byp := func(n int) bool {
+		if exempt != nil {
+			return exempt[n]
+		}
+		return d.qs[n].force || d.qs[n].treeRoot
+	}
 	for _, pn := range names {
-		if d.qs[pn].force || d.qs[pn].treeRoot {
+		if byp(pn) {
 			continue
 		}
 		for k := 0; k < c15Dims; k++ {
 			var sum int64
 			for _, cn := range names {
-				if c := d.qs[cn]; c.parent == pn && !c.force && !c.treeRoot {
+				if c := d.qs[cn]; c.parent == pn && !byp(cn) {
 					sum += c15Val(c.mn[k])
 				}
 			}
@@ -597,6 +621,175 @@ func c15WF(d *c15Dump, store map[int]*c15Spec, checkMinSum bool) (string, string
 		}
 	}
 	return "", ""
+}
+
+// ---- informer glue: events of admitted objects, the oracle's own bookkeeping ----
+
+// The webhook's handlers convert *unstructured.Unstructured (also inside a tombstone) with client-go's scheme.Scheme.
+// koord-manager registers the ElasticQuota type only in its own options.Scheme, so in the pinned tree that conversion
+// fails and such events are dropped (reported, see TestVerifC15Tombstone); the harness registers the type so that the
+// path the authors wrote is exercised.  VERIF_C15_TOMBSTONE=prod leaves the scheme as koord-manager has it.
+var c15SchemeRegistered = func() bool {
+	if os.Getenv("VERIF_C15_TOMBSTONE") == "prod" {
+		return false
+	}
+	_ = v1alpha1.AddToScheme(clientgoscheme.Scheme)
+	return true
+}()
+
+func c15Unstructured(obj *v1alpha1.ElasticQuota) *unstructured.Unstructured {
+	m, err := runtime.DefaultUnstructuredConverter.ToUnstructured(obj)
+	if err != nil {
+		panic(err)
+	}
+	return &unstructured.Unstructured{Object: m}
+}
+
+// c15EventObj: the representation in which an informer hands over an object: 0 typed pointer, 1 unstructured,
+// 2 (deletes only) a tombstone BY VALUE holding the unstructured object, 3 a tombstone by value holding the typed object.
+func c15EventObj(obj *v1alpha1.ElasticQuota, shape int) interface{} {
+	obj = obj.DeepCopy()
+	switch shape {
+	case 1:
+		return c15Unstructured(obj)
+	case 2:
+		return toolscache.DeletedFinalStateUnknown{Key: obj.Namespace + "/" + obj.Name, Obj: c15Unstructured(obj)}
+	case 3:
+		return toolscache.DeletedFinalStateUnknown{Key: obj.Namespace + "/" + obj.Name, Obj: obj}
+	}
+	return obj
+}
+
+// c15Deliver hands the informer event of an ADMITTED request to the real handlers of one topology.
+func c15Deliver(h *vHarness, qt *quotaTopology, kind string, oldObj, obj *v1alpha1.ElasticQuota, shape int) (panicked bool) {
+	if !c15SchemeRegistered && shape != 3 {
+		shape = 0
+	}
+	return h.Guard(func() {
+		switch kind {
+		case "add":
+			qt.OnQuotaAdd(c15EventObj(obj, shape&1))
+		case "upd":
+			qt.OnQuotaUpdate(c15EventObj(oldObj, shape&1), c15EventObj(obj, shape&1))
+		case "del":
+			qt.OnQuotaDelete(c15EventObj(obj, shape))
+		}
+	})
+}
+
+// c15SameCompared: the two API objects agree in the labels parent / is-parent / tree-id, the namespaces annotation and
+// the spec, compared as the API server stores them (strings, maps) — what an update request can change of the topology
+// apart from the two bypass labels.  Written from the objects; does not call the implementation's quotaFieldsCopy.
+func c15SameCompared(a, b *v1alpha1.ElasticQuota) bool {
+	for _, k := range []string{extension.LabelQuotaParent, extension.LabelQuotaIsParent, extension.LabelQuotaTreeID} {
+		if a.Labels[k] != b.Labels[k] {
+			return false
+		}
+	}
+	if a.Annotations[extension.AnnotationQuotaNamespaces] != b.Annotations[extension.AnnotationQuotaNamespaces] {
+		return false
+	}
+	return reflect.DeepEqual(a.Spec, b.Spec)
+}
+
+// c15Book: the oracle's own bookkeeping besides the store of admitted objects.
+//   taint[n]: the last admitted request for n that changed a compared field (or created n), or a later label-only one,
+//             carried allow-force-update / is-root — n is exempt from the min-sum clause as a parent and as a child.
+//   flagsKept: no label-only update (compared fields unchanged) changed a bypass label so far = hypothesis `FlagsKept`
+//             of the Lean echo / replica theorems.
+type c15Book struct {
+	taint     map[int]bool
+	flagsKept bool
+}
+
+func c15NewBook() *c15Book { return &c15Book{taint: map[int]bool{}, flagsKept: true} }
+
+func (b *c15Book) admitted(kind string, old, sp *c15Spec, target int) {
+	switch kind {
+	case "add":
+		b.taint[target] = sp.force || sp.treeRoot
+	case "upd":
+		same := old != nil && c15SameCompared(c15Object(old), c15Object(sp))
+		if sp.force || sp.treeRoot {
+			b.taint[target] = true
+		} else if !same {
+			b.taint[target] = false
+		}
+		if same && (old.force != sp.force || old.treeRoot != sp.treeRoot) {
+			b.flagsKept = false
+		}
+	case "del":
+		delete(b.taint, target)
+	}
+}
+
+// c15StoreDump: the admitted objects themselves as a topology (children map and namespace map derived from them), so
+// that c15WFx judges the ADMISSION VERDICTS against the oracle's bookkeeping, whatever the replica recorded.
+func c15StoreDump(store map[int]*c15Spec) *c15Dump {
+	d := &c15Dump{qs: map[int]*c15Q{}, kids: map[int][]int{0: {}}, ns: map[int]int{}}
+	names := make([]int, 0, len(store))
+	for n := range store {
+		names = append(names, n)
+	}
+	sort.Ints(names)
+	for _, n := range names {
+		sp := store[n]
+		d.qs[n] = &c15Q{name: n, parent: sp.parent, isParent: sp.isParent, tree: sp.tree, force: sp.force, treeRoot: sp.treeRoot, mn: sp.mn, mx: sp.mx}
+		d.kids[n] = []int{}
+	}
+	for _, n := range names {
+		if _, ok := d.kids[store[n].parent]; ok {
+			d.kids[store[n].parent] = append(d.kids[store[n].parent], n)
+		}
+		for _, x := range store[n].ns {
+			if _, ok := d.ns[x]; !ok {
+				d.ns[x] = n
+			}
+		}
+	}
+	return d
+}
+
+// c15PlainSumAround: counting quota n like an ordinary one, do the mins of its parent's children / of its own children
+// fit (only quotas that are not otherwise exempt are looked at)?  "" = they fit.
+func c15PlainSumAround(store map[int]*c15Spec, taint map[int]bool, n int) string {
+	sp := store[n]
+	other := func(m int) bool { return m != n && taint[m] }
+	if p := store[sp.parent]; p != nil && !other(sp.parent) {
+		for k := 0; k < c15Dims; k++ {
+			var sum int64
+			for m, c := range store {
+				if c.parent == sp.parent && !other(m) {
+					sum += c15Val(c.mn[k])
+				}
+			}
+			if sum > c15Val(p.mn[k]) {
+				return fmt.Sprintf("children of %d sum to %d > min %d in dimension %d", sp.parent, sum, c15Val(p.mn[k]), k)
+			}
+		}
+	}
+	for k := 0; k < c15Dims; k++ {
+		var sum int64
+		for m, c := range store {
+			if c.parent == n && !other(m) {
+				sum += c15Val(c.mn[k])
+			}
+		}
+		if sum > c15Val(sp.mn[k]) {
+			return fmt.Sprintf("children of %d sum to %d > min %d in dimension %d", n, sum, c15Val(sp.mn[k]), k)
+		}
+	}
+	return ""
+}
+
+// c15Judge: after an admitted request was entered into the store, the admitted objects must still satisfy every clause
+// (namespace bound at most once, parent exists and is marked, no cycle, keys / tree ids along edges, min sums).
+func c15Judge(store map[int]*c15Spec, plainMinSum bool, book *c15Book) (string, string) {
+	fp, what := c15WFx(c15StoreDump(store), store, plainMinSum, book.taint)
+	if fp != "" {
+		fp = strings.Replace(fp, "C15:", "C15:admitted:", 1)
+	}
+	return fp, what
 }
 
 // ---- generator ----
@@ -839,7 +1032,7 @@ func (g *c15Gen) mutate(old *c15Spec) *c15Spec {
 		n = 2
 	}
 	for i := 0; i < n; i++ {
-		switch r.Intn(10) {
+		switch r.Intn(12) {
 		case 0, 1, 2:
 			sp.parent = g.pickParent(old.name)
 		case 3:
@@ -877,6 +1070,33 @@ func (g *c15Gen) mutate(old *c15Spec) *c15Spec {
 			// identical request (quotaFieldsCopy short-circuit), possibly with another flag
 			if g.flags && r.Bool() {
 				sp.treeRoot = !sp.treeRoot
+			}
+		case 10, 11:
+			// overlapping edit of the namespace list: the quota keeps at least one namespace across the update
+			// ([a,b] -> [b,c], [a] -> [a,c], [a,b] -> [b], [a,b] -> [b,a])
+			if len(sp.ns) == 0 {
+				sp.ns = g.nsList()
+				break
+			}
+			switch r.Intn(4) {
+			case 0:
+				first := sp.ns[0]
+				sp.ns = append(append([]int(nil), sp.ns[1:]...), r.Range(1, 5))
+				if len(sp.ns) == 1 {
+					sp.ns = append([]int{first}, sp.ns...)
+				}
+			case 1:
+				sp.ns = append(sp.ns, r.Range(1, 5))
+			case 2:
+				if len(sp.ns) > 1 {
+					sp.ns = sp.ns[1:]
+				} else {
+					sp.ns = append([]int{r.Range(1, 5)}, sp.ns...)
+				}
+			case 3:
+				for i, j := 0, len(sp.ns)-1; i < j; i, j = i+1, j-1 {
+					sp.ns[i], sp.ns[j] = sp.ns[j], sp.ns[i]
+				}
 			}
 		}
 	}
@@ -1022,6 +1242,14 @@ func c15History(h *vHarness, r *vRand, deep bool) {
 		qt := NewQuotaTopology(cl)
 		minSumApplies := true
 		accepted, reparents, failed := 0, 0, false
+		// informer glue: in 7/8 of the histories the informer event of every ADMITTED request reaches the handlers of this
+		// replica right after the admission (the realistic timing for the replica that admitted it); in 1/8 the events are
+		// late (admission-only history, as before the extension)
+		echo := !r.Chance(1, 8)
+		h.Op("echo %d", vB(echo))
+		h.Tag(fmt.Sprintf("history:echo:%d", vB(echo)))
+		book := c15NewBook()
+		nsKeptAcrossUpdate, isRootBelowRoot := false, false
 
 		for st := 0; st < steps && !failed; st++ {
 			ex := g.existing()
@@ -1096,6 +1324,7 @@ func c15History(h *vHarness, r *vRand, deep bool) {
 
 			var err error
 			var sp *c15Spec
+			var evOld, evObj *v1alpha1.ElasticQuota // the objects of the informer event, should the request be admitted
 			panicked := false
 			switch kind {
 			case "add":
@@ -1116,6 +1345,7 @@ func c15History(h *vHarness, r *vRand, deep bool) {
 					h.Op("%s", c15OpLine("add", sp, cl))
 				}
 				obj := c15Object(sp)
+				evObj = obj
 				panicked = h.Guard(func() {
 					if viaFill {
 						if err = qt.fillQuotaDefaultInformation(obj); err != nil {
@@ -1156,6 +1386,7 @@ func c15History(h *vHarness, r *vRand, deep bool) {
 				if old != nil {
 					oldObj = c15Object(old)
 				}
+				evOld, evObj = oldObj, obj
 				panicked = h.Guard(func() { err = qt.ValidUpdateQuota(oldObj, obj) })
 			case "del":
 				h.Op("del %d %s", target, cl.envTokens())
@@ -1165,7 +1396,21 @@ func c15History(h *vHarness, r *vRand, deep bool) {
 				} else {
 					obj = c15Object(&c15Spec{name: target, mn: [c15Dims]int64{c15Absent, c15Absent, c15Absent}, mx: [c15Dims]int64{c15Absent, c15Absent, c15Absent}})
 				}
+				evObj = obj
 				panicked = h.Guard(func() { err = qt.ValidDeleteQuota(obj) })
+			}
+			if echo && !panicked && err == nil && (kind != "upd" || evOld != nil) {
+				// the informer event of the admitted object: typed pointer, sometimes unstructured; a delete sometimes as a
+				// tombstone by value
+				shape := 0
+				if r.Chance(1, 6) {
+					shape = 1
+				}
+				if kind == "del" && r.Chance(1, 3) {
+					shape = 2
+				}
+				h.Tag(fmt.Sprintf("event:%s:shape%d", kind, shape))
+				panicked = c15Deliver(h, qt, kind, evOld, evObj, shape)
 			}
 			if sp != nil { // amount classes of the request (exact milli-units vs. what a whole-unit rounding would see)
 				ceil := func(x int64) int64 { return (x + 999) / 1000 }
@@ -1219,6 +1464,16 @@ func c15History(h *vHarness, r *vRand, deep bool) {
 				continue
 			}
 			accepted++
+			book.admitted(kind, old, sp, target)
+			if kind == "upd" && old != nil && fmt.Sprint(old.ns) != fmt.Sprint(sp.ns) {
+				for _, x := range old.ns {
+					for _, y := range sp.ns {
+						if x == y {
+							nsKeptAcrossUpdate = true
+						}
+					}
+				}
+			}
 			switch kind {
 			case "add":
 				g.store[target] = sp
@@ -1253,10 +1508,42 @@ func c15History(h *vHarness, r *vRand, deep bool) {
 					failed = true
 				}
 			}
-			if fp, what := c15WF(after, g.store, minSumApplies); fp != "" {
+			// the recorded topology: with the informer echo the recorded bypass flags follow label-only updates (accepted
+			// without any check), so the state-based min-sum clause exempts by the oracle's bookkeeping there
+			exempt := map[int]bool(nil)
+			if echo {
+				exempt = book.taint
+			}
+			if fp, what := c15WFx(after, g.store, minSumApplies, exempt); fp != "" {
 				h.Fail(fp, "after request %d (%s %d): %s", st, kind, target, what)
 				failed = true
 			}
+			// the admission verdict against the oracle's own bookkeeping of admitted objects
+			if fp, what := c15Judge(g.store, minSumApplies, book); fp != "" && !failed {
+				h.Fail(fp, "request %d (%s %d) was admitted: %s", st, kind, target, what)
+				failed = true
+			}
+			// decided by this stream (DESIGN C15, reading note ii): checkMinQuotaValidate returns at once for ANY quota
+			// labelled is-root=true, also one that does not hang directly off the root.  Exhibit: such a request admitted
+			// although, counting it like an ordinary quota, its parent's or its own children's mins do not fit (no other
+			// bypassing quota involved).  Tag always; a failure only with VERIF_C15_STRICTROOT=1 (by design of the code the
+			// label is a bypass; the property's min-sum clause exempts it).
+			if kind != "del" && sp.treeRoot && !sp.force && sp.parent != 0 {
+				if what := c15PlainSumAround(g.store, book.taint, target); what != "" {
+					isRootBelowRoot = true
+					if os.Getenv("VERIF_C15_STRICTROOT") == "1" && !failed {
+						h.Fail("C15:is-root-bypass-below-root", "request %d (%s %d, is-root=true under parent %d) was admitted: %s", st, kind, target, sp.parent, what)
+						failed = true
+					}
+				}
+			}
+		}
+		h.Tag(fmt.Sprintf("hyp:flags-kept:%d", vB(book.flagsKept)))
+		if nsKeptAcrossUpdate {
+			h.Tag("accepted-ns-edit-keeping-a-namespace")
+		}
+		if isRootBelowRoot {
+			h.Tag("bypass:is-root-below-root:min-sum-exceeded")
 		}
 		h.Tag(fmt.Sprintf("final-size:%d", len(g.store)))
 		depth := 0
@@ -1344,12 +1631,13 @@ func TestVerifC15RootAdd(t *testing.T) {
 			plan = append(plan, root) // second create of the root object: "already exist"
 		}
 		sawRoot, failed := false, false
+		h.Op("echo 1") // the informer event of every admitted create reaches OnQuotaAdd right after
 		for st, sp := range plan {
 			before := c15Snapshot(qt)
 			var err error
 			h.Op("%s", c15OpLine("add", sp, nil))
 			obj := c15Object(sp)
-			if h.Guard(func() { err = qt.ValidAddQuota(obj) }) {
+			if h.Guard(func() { err = qt.ValidAddQuota(obj) }) || (err == nil && c15Deliver(h, qt, "add", nil, obj, 0)) {
 				h.Obs("panic")
 				h.Fail("C15:panic", "request %d (add %d) panicked", st, sp.name)
 				break
@@ -1374,6 +1662,18 @@ func TestVerifC15RootAdd(t *testing.T) {
 			store[sp.name] = sp
 			if sp.name == 0 {
 				sawRoot = true
+				// decided by this stream (reading note i): validateQuotaTopology returns at once for the root NAME, so a create
+				// of koordinator-root-quota that carries a parent label is admitted and recorded as a child of that parent
+				// (also of a quota that does not exist, or of itself).  Tag always; a failure only with VERIF_C15_ROOTPARENT=1.
+				if rq := after.qs[0]; rq != nil && rq.parent != c15NoParent {
+					_, known := after.qs[rq.parent]
+					h.Tag(fmt.Sprintf("rootadd:recorded-with-parent:self%d:known%d", vB(rq.parent == 0), vB(known)))
+					if os.Getenv("VERIF_C15_ROOTPARENT") == "1" && !failed {
+						h.Fail("C15:root-recorded-with-parent", "after request %d: the root quota object is recorded with parent %d (recorded quota: %v) and listed among that parent's children %v",
+							st, rq.parent, known, after.kids[rq.parent])
+						failed = true
+					}
+				}
 			}
 			if after.bad != "" {
 				h.Fail("C15:undumpable", "%s", after.bad)
@@ -1470,6 +1770,20 @@ func c15Apply(h *vHarness, qt *quotaTopology, store map[int]*c15Spec, rq c15Req)
 		panicked = h.Guard(func() { err = qt.ValidDeleteQuota(obj) })
 	}
 	ok = !panicked && err == nil
+	if ok && (rq.kind == "add" || old != nil) {
+		// the informer event of the admitted object reaches the handlers right after (op line `echo 1`)
+		obj := c15Object(rq.sp)
+		var oldObj *v1alpha1.ElasticQuota
+		if old != nil {
+			oldObj = c15Object(old)
+			if rq.kind == "del" {
+				obj = oldObj
+			}
+		}
+		if c15Deliver(h, qt, rq.kind, oldObj, obj, 0) {
+			ok, panicked = false, true
+		}
+	}
 	if ok {
 		switch rq.kind {
 		case "add", "upd":
@@ -1528,6 +1842,7 @@ func TestVerifC15Exhaustive(t *testing.T) {
 		store := map[int]*c15Spec{}
 		if emit {
 			h.Op("compact")
+			h.Op("echo 1")
 		}
 		for _, i := range prefix {
 			ok, _, _ := c15Apply(h, qt, store, alpha[i])
@@ -1668,4 +1983,415 @@ func TestVerifC15Echo(t *testing.T) {
 		h.End()
 	}
 	h.Close("informer-echo exhibit (VERIF_C15_ECHO=1 only): two fixed interleavings of admissions and late informer events")
+}
+
+// ---- two replicas behind one API server (informer glue wired through the REAL NewQuotaInformer) ----
+//
+// Two quotaTopology instances, each registered with its own (fake) controller-runtime cache by the real
+// NewQuotaInformer — as the mutating and the validating handler both do, so in half of the histories twice.  One
+// simulated API server stores the admitted objects and assigns metadata.generation as the real one does for this CRD
+// (config/crd/bases/scheduling.sigs.k8s.io_elasticquotas.yaml has no status subresource: generation moves on every
+// change outside metadata, i.e. spec or status; label / annotation edits keep it).  Requests alternate between the
+// replicas; every admitted object is broadcast as an informer event to BOTH replicas through whatever handler the
+// registration installed.  Oracle: c15WFx on either replica's dump and c15Judge on the admitted objects.
+
+type c15Informer struct {
+	*controllertest.FakeInformer
+	handlers []toolscache.ResourceEventHandler
+}
+
+func (i *c15Informer) AddEventHandler(hd toolscache.ResourceEventHandler) (toolscache.ResourceEventHandlerRegistration, error) {
+	i.handlers = append(i.handlers, hd)
+	return i.FakeInformer.AddEventHandler(hd)
+}
+func (i *c15Informer) AddEventHandlerWithResyncPeriod(hd toolscache.ResourceEventHandler, d time.Duration) (toolscache.ResourceEventHandlerRegistration, error) {
+	i.handlers = append(i.handlers, hd)
+	return i.FakeInformer.AddEventHandlerWithResyncPeriod(hd, d)
+}
+func (i *c15Informer) AddEventHandlerWithOptions(hd toolscache.ResourceEventHandler, o toolscache.HandlerOptions) (toolscache.ResourceEventHandlerRegistration, error) {
+	i.handlers = append(i.handlers, hd)
+	return i.FakeInformer.AddEventHandlerWithOptions(hd, o)
+}
+
+type c15Replica struct {
+	qt  *quotaTopology
+	inf *c15Informer
+}
+
+func c15NewReplica(registrations int) (*c15Replica, error) {
+	rp := &c15Replica{qt: NewQuotaTopology(&c15Client{}), inf: &c15Informer{FakeInformer: &controllertest.FakeInformer{Synced: true}}}
+	sch := runtime.NewScheme()
+	if err := v1alpha1.AddToScheme(sch); err != nil {
+		return nil, err
+	}
+	gvk := v1alpha1.SchemeGroupVersion.WithKind("ElasticQuota")
+	fc := &informertest.FakeInformers{Scheme: sch, InformersByGVK: map[schema.GroupVersionKind]toolscache.SharedIndexInformer{gvk: rp.inf}}
+	for i := 0; i < registrations; i++ {
+		if _, err := NewQuotaInformer(fc, rp.qt); err != nil {
+			return nil, err
+		}
+	}
+	if len(rp.inf.handlers) != registrations {
+		return nil, fmt.Errorf("NewQuotaInformer registered %d handlers in %d calls", len(rp.inf.handlers), registrations)
+	}
+	return rp, nil
+}
+
+// event: what the shared informer machinery calls on every registered handler
+func (rp *c15Replica) event(h *vHarness, kind string, oldObj, obj *v1alpha1.ElasticQuota, shape int) (panicked bool) {
+	if !c15SchemeRegistered && shape != 3 {
+		shape = 0
+	}
+	return h.Guard(func() {
+		for _, hd := range rp.inf.handlers {
+			switch kind {
+			case "add":
+				hd.OnAdd(c15EventObj(obj, shape&1), false)
+			case "upd":
+				hd.OnUpdate(c15EventObj(oldObj, shape&1), c15EventObj(obj, shape&1))
+			case "del":
+				hd.OnDelete(c15EventObj(obj, shape))
+			}
+		}
+	})
+}
+
+// c15APIStore: the simulated API server's side of an admitted write
+func c15APIStore(api map[int]*v1alpha1.ElasticQuota, rv *int, kind string, name int, obj *v1alpha1.ElasticQuota) {
+	*rv++
+	switch kind {
+	case "add":
+		obj.Generation = 1
+		obj.UID = types.UID(fmt.Sprintf("uid-%d-%d", name, *rv))
+	case "upd":
+		old := api[name]
+		obj.UID = old.UID
+		obj.Generation = old.Generation
+		if !apiequality.Semantic.DeepEqual(old.Spec, obj.Spec) || !apiequality.Semantic.DeepEqual(old.Status, obj.Status) {
+			obj.Generation++
+		}
+	}
+	obj.ResourceVersion = fmt.Sprint(*rv)
+	if kind == "del" {
+		delete(api, name)
+	} else {
+		api[name] = obj
+	}
+}
+
+func TestVerifC15Replicas(t *testing.T) {
+	h := vOpen("C15")
+	if h == nil {
+		t.Skip("VERIF_OUT not set")
+	}
+	n := h.N(600, 15000)
+	for idx := 0; idx < n; idx++ {
+		r := h.Begin(idx)
+		if r == nil {
+			continue
+		}
+		g := &c15Gen{r: r, store: map[int]*c15Spec{}}
+		switch r.Intn(3) {
+		case 0:
+			g.keyset = [c15Dims]bool{true, false, false}
+		case 1:
+			g.keyset = [c15Dims]bool{true, true, false}
+		default:
+			g.keyset = [c15Dims]bool{true, true, true}
+		}
+		g.trees = r.Chance(1, 4)
+		g.flags = r.Chance(1, 6)
+		g.maxNames = r.Range(3, 5)
+		rp := c15Repr{rootAsEmptyLabel: r.Bool(), emptyListAsNil: r.Bool()}
+		registrations := r.Range(1, 2)
+		h.Op("two")
+		h.Tag(fmt.Sprintf("registrations:%d", registrations))
+		var reps [2]*c15Replica
+		for i := range reps {
+			var err error
+			if reps[i], err = c15NewReplica(registrations); err != nil {
+				t.Fatalf("replica wiring: %v", err)
+			}
+		}
+		api := map[int]*v1alpha1.ElasticQuota{}
+		rv := 0
+		book := c15NewBook()
+		minSumApplies := true
+		accepted, failed, metaOnly := 0, false, 0
+		lastRep := r.Intn(2)
+		// follow-up hint: what a stale replica would wrongly admit after a metadata-only update it did not see
+		type hint struct {
+			kind           string
+			target, parent int
+			ns             []int
+		}
+		var follow *hint
+		steps := r.Range(6, 20)
+		for st := 0; st < steps && !failed; st++ {
+			rep := r.Intn(2)
+			if r.Chance(2, 3) {
+				rep = 1 - lastRep
+			}
+			lastRep = rep
+			h.Op("rep %d", rep)
+			qt := reps[rep].qt
+			ex := g.existing()
+			before := [2]*c15Dump{c15Snapshot(reps[0].qt), c15Snapshot(reps[1].qt)}
+			kind := "upd"
+			switch {
+			case len(ex) == 0 || (len(ex) < g.maxNames && r.Chance(1, 2)):
+				kind = "add"
+			case r.Chance(1, 5):
+				kind = "del"
+			}
+			var target int
+			if kind == "add" {
+				target = 3 + r.Intn(g.maxNames+1)
+				for try := 0; try < 6 && g.store[target] != nil; try++ {
+					target = 3 + r.Intn(g.maxNames+1)
+				}
+			} else if r.Chance(1, 12) {
+				target = 3 + r.Intn(g.maxNames+1)
+			} else {
+				target = ex[r.Intn(len(ex))]
+			}
+			var sp *c15Spec
+			if follow != nil && r.Chance(2, 3) {
+				kind, target = follow.kind, follow.target
+				h.Tag("follow-up:" + kind)
+				if kind == "add" {
+					for target = 3; g.store[target] != nil; target++ {
+					}
+					sp = g.fresh(target)
+					sp.parent, sp.ns = follow.parent, follow.ns
+					sp.isParent = false
+					if p := g.store[sp.parent]; p != nil {
+						sp.tree = p.tree
+						for k := 0; k < c15Dims; k++ {
+							if sp.mx[k] = p.mx[k]; p.mx[k] == c15Absent || p.mn[k] == c15Absent {
+								sp.mn[k] = c15Absent
+							} else {
+								sp.mn[k] = 0
+							}
+						}
+					}
+				}
+			}
+			follow = nil
+			old := g.store[target]
+			var err error
+			var evOld, evObj *v1alpha1.ElasticQuota
+			panicked := false
+			switch kind {
+			case "add":
+				if sp == nil {
+					sp = g.fresh(target)
+				}
+				if sp.name == 0 {
+					h.Fail("C15:assumption-not-root-add", "replica stream generated a create request named root")
+				}
+				g.shapes(sp, rp)
+				viaFill := r.Chance(1, 3)
+				if viaFill {
+					h.Op("%s", c15OpLine("madd", sp, nil))
+				} else {
+					h.Op("%s", c15OpLine("add", sp, nil))
+				}
+				obj := c15Object(sp)
+				evObj = obj
+				panicked = h.Guard(func() {
+					if viaFill {
+						if err = qt.fillQuotaDefaultInformation(obj); err != nil {
+							return
+						}
+					}
+					err = qt.ValidAddQuota(obj)
+				})
+				if viaFill && !panicked && err == nil {
+					sp.parentShape = 0
+					sp.tree = c15TreeID(obj.Labels[extension.LabelQuotaTreeID])
+				}
+			case "upd":
+				if old != nil {
+					sp = g.mutate(old)
+				} else {
+					sp = g.fresh(target)
+				}
+				if old == nil || !r.Chance(1, 2) {
+					g.shapes(sp, rp)
+				} else if sp.nsShape == 2 {
+					sp.ns = nil
+				}
+				h.Op("%s", c15OpLine("upd", sp, nil))
+				obj := c15Object(sp)
+				evOld, evObj = api[target], obj
+				panicked = h.Guard(func() { err = qt.ValidUpdateQuota(evOld, obj) })
+			case "del":
+				h.Op("del %d 0 0", target)
+				evObj = api[target]
+				obj := evObj
+				if obj == nil {
+					obj = c15Object(&c15Spec{name: target, mn: [c15Dims]int64{c15Absent, c15Absent, c15Absent}, mx: [c15Dims]int64{c15Absent, c15Absent, c15Absent}})
+				}
+				panicked = h.Guard(func() { err = qt.ValidDeleteQuota(obj) })
+			}
+			ok := !panicked && err == nil
+			if ok && (kind == "add" || old != nil) {
+				// the API server stores the object and both informers deliver it
+				gen0 := int64(0)
+				if evOld != nil {
+					gen0 = evOld.Generation
+				}
+				c15APIStore(api, &rv, kind, target, evObj)
+				if kind == "upd" && evObj.Generation == gen0 {
+					metaOnly++
+					h.Tag("event:upd:generation-unchanged")
+					if !c15SameCompared(evOld, evObj) {
+						h.Tag("event:upd:generation-unchanged:topology-changed")
+					}
+				}
+				for i := range reps {
+					shape := 0
+					if r.Chance(1, 6) {
+						shape = 1
+					}
+					if kind == "del" && r.Chance(1, 4) {
+						shape = 2
+					}
+					h.Tag(fmt.Sprintf("event:%s:shape%d", kind, shape))
+					if reps[i].event(h, kind, evOld, evObj, shape) {
+						panicked = true
+					}
+				}
+			}
+			if panicked {
+				h.Obs("panic")
+				h.Fail("C15:panic", "request %d (%s %d on replica %d) or its informer event panicked", st, kind, target, rep)
+				break
+			}
+			h.Obs("res %d", vB(ok))
+			h.Tag(kind + ":" + c15ErrKind(err))
+			after := [2]*c15Dump{c15Snapshot(reps[0].qt), c15Snapshot(reps[1].qt)}
+			for i := range after {
+				h.Obs("rep%d", i)
+				for _, l := range after[i].lines() {
+					h.Obs("%s", l)
+				}
+			}
+			if !ok {
+				for i := range after {
+					if strings.Join(before[i].lines(), "\n") != strings.Join(after[i].lines(), "\n") {
+						h.Fail("C15:reject-changed-state", "request %d (%s %d) was rejected but replica %d's recorded topology changed", st, kind, target, i)
+						failed = true
+					}
+				}
+				continue
+			}
+			accepted++
+			book.admitted(kind, old, sp, target)
+			switch kind {
+			case "add", "upd":
+				if kind == "upd" && old == nil {
+					h.Fail("C15:update-unknown-accepted", "update of unknown quota %d accepted", target)
+					failed = true
+					break
+				}
+				if sp.force || sp.treeRoot {
+					minSumApplies = false
+				}
+				if kind == "upd" {
+					// what the OTHER replica must have learnt from the event
+					switch {
+					case old.parent != sp.parent && sp.parent != 0:
+						follow = &hint{kind: "del", target: sp.parent}
+					case old.isParent && !sp.isParent:
+						follow = &hint{kind: "add", parent: target}
+					default:
+						for _, x := range sp.ns {
+							had := false
+							for _, y := range old.ns {
+								had = had || x == y
+							}
+							if !had {
+								follow = &hint{kind: "add", ns: []int{x}}
+							}
+						}
+					}
+				}
+				g.store[target] = sp
+			case "del":
+				delete(g.store, target)
+			}
+			for i := range after {
+				if fp, what := c15WFx(after[i], g.store, minSumApplies, book.taint); fp != "" && !failed {
+					h.Fail(fp, "replica %d after request %d (%s %d on replica %d): %s", i, st, kind, target, rep, what)
+					failed = true
+				}
+			}
+			if fp, what := c15Judge(g.store, minSumApplies, book); fp != "" && !failed {
+				h.Fail(fp, "request %d (%s %d) was admitted by replica %d: %s", st, kind, target, rep, what)
+				failed = true
+			}
+		}
+		h.Tag(fmt.Sprintf("hyp:flags-kept:%d", vB(book.flagsKept)))
+		h.Tag(fmt.Sprintf("final-size:%d", len(g.store)))
+		if accepted >= 3 && metaOnly >= 1 {
+			h.Nontrivial()
+		}
+		h.End()
+	}
+	h.Close("two-replica stream: histories of 6-20 requests over <=6 names, each handled by one of two quotaTopology replicas wired through the real NewQuotaInformer " +
+		"(1 or 2 registrations) on fake controller-runtime caches; a simulated API server stores admitted objects, assigns generations (bump on spec change only) and " +
+		"broadcasts Add/Update/Delete (typed, unstructured, tombstone by value) to both; 2/3 of the requests after a metadata-only reparent / is-parent drop / namespace gain " +
+		"probe the other replica with the request a stale replica would wrongly admit; non-trivial = >=3 admitted requests incl. >=1 update that kept the generation")
+}
+
+// ---- exhibit: a delete that arrives as a tombstone is dropped (koord-manager's scheme wiring) ----
+//
+// VERIF_C15_TOMBSTONE=prod only (suspected defect, reported; not modelled).  toElasticQuota accepts a
+// cache.DeletedFinalStateUnknown only when it holds an *unstructured.Unstructured, and converts unstructured objects with
+// client-go's scheme.Scheme, where koord-manager never registers the ElasticQuota type; the informer NewQuotaInformer asks
+// for is typed.  So the tombstone of a delete the replica missed (watch re-list) is ignored in either form and the
+// replica keeps the quota: the create of a quota with the same name / one of its namespaces is refused for good.
+func TestVerifC15Tombstone(t *testing.T) {
+	h := vOpen("C15")
+	if h == nil {
+		t.Skip("VERIF_OUT not set")
+	}
+	n := 2
+	if c15SchemeRegistered {
+		n = 0
+	}
+	for idx := 0; idx < n; idx++ {
+		if h.Begin(idx) == nil {
+			continue
+		}
+		a, _ := c15NewReplica(1)
+		b, _ := c15NewReplica(1)
+		sp := &c15Spec{name: 3, ns: []int{1}, mn: [c15Dims]int64{1000, c15Absent, c15Absent}, mx: [c15Dims]int64{8000, c15Absent, c15Absent}}
+		obj := c15Object(sp)
+		h.Op("%s", c15OpLine("add", sp, nil))
+		e1 := a.qt.ValidAddQuota(obj)
+		a.event(h, "add", nil, obj, 0)
+		b.event(h, "add", nil, obj, 0)
+		h.Op("del 3 0 0")
+		e2 := a.qt.ValidDeleteQuota(obj)
+		a.event(h, "del", nil, obj, 0)
+		shape := 3 // typed object inside the tombstone: what the typed informer yields
+		if idx == 1 {
+			shape = 2 // unstructured inside: needs the type in client-go's scheme.Scheme
+			b.qt.OnQuotaDelete(c15EventObj(obj, 2))
+		} else {
+			b.qt.OnQuotaDelete(c15EventObj(obj, 3))
+		}
+		h.Op("%s", c15OpLine("add", sp, nil))
+		e3 := b.qt.ValidAddQuota(c15Object(sp))
+		h.Obs("admit %d %d recreate-on-b %d", vB(e1 == nil), vB(e2 == nil), vB(e3 == nil))
+		if e1 == nil && e2 == nil && e3 != nil {
+			h.Fail("C15:tombstone-dropped", "quota 3 deleted through replica a, tombstone (shape %d) delivered to replica b; b still records it and refuses the re-create: %v", shape, e3)
+		}
+		h.Nontrivial()
+		h.End()
+	}
+	h.Close("tombstone exhibit (VERIF_C15_TOMBSTONE=prod only): delete missed by a replica and delivered as DeletedFinalStateUnknown holding the typed / the unstructured object")
 }
